@@ -240,27 +240,21 @@ Proof.
   exists it. split; auto. apply in_flat_map. eauto.
 Qed.
 
-Theorem imports_closed M order : wfM M = true -> F_hasbuiltin M = true -> topo M order ->
+Theorem imports_closed M order : wfM M = true -> topo M order ->
   wf_imports (gen M order) = true.
 Proof.
-  intros W F [T1 _]. unfold wf_imports. apply forallb_forall. intros t Ht. cbn in Ht.
+  intros W [T1 _]. unfold wf_imports. apply forallb_forall. intros t Ht. cbn in Ht.
   apply in_map_iff in Ht. destruct Ht as [c [<- Hc]]. pose proof (proj1 (T1 c) Hc) as HcM.
   apply str_subset_incl. intros m Hm.
   assert (TY : In "typing" (s_imports (gen M order))) by (cbn; auto).
-  assert (BI : In "builtins" (s_imports (gen M order))).
-  { unfold F_hasbuiltin in F. apply existsb_exists in F. destruct F as [d [Hd F]]. apply existsb_exists in F.
-    destruct F as [f [Hf F]]. cbn. right. right. apply in_app_iff. right.
-    apply in_flat_map. exists d. split; [now apply T1|]. rewrite (table_items_own M d W Hd).
-    apply in_flat_map. exists (parse_one M d f). split; [now apply in_map|].
-    unfold parse_one. destruct f as [nm sh ep dd]. cbn in F. destruct ep as [b| |]; try discriminate.
-    destruct sh; cbn in F; try discriminate; destruct b; cbn in *; auto; discriminate. }
+  assert (BI : In "builtins" (s_imports (gen M order))) by (cbn; auto).
   assert (IT : forall it, In it (table_items M c) -> forall x, In x (item_mods it) -> In x (s_imports (gen M order))).
   { intros it Hit x Hx. rewrite (table_items_own M c W HcM) in Hit. apply in_map_iff in Hit. destruct Hit as [f [<- Hf]].
     destruct (item_mods_ok M c f x Hx) as [->|[->|I]]; auto.
-    cbn. right. right. apply in_app_iff. right. apply in_flat_map. exists c. split; auto.
+    cbn. right. right. right. apply in_app_iff. right. apply in_flat_map. exists c. split; auto.
     rewrite (table_items_own M c W HcM). apply in_flat_map. exists (parse_one M c f). split; auto. now apply in_map. }
   unfold table_mods in Hm. cbn [app] in Hm. destruct Hm as [<-|[<-|Hm]]; auto.
-  - cbn. right. right. apply in_app_iff. left. apply in_map_iff. exists c. auto.
+  - cbn. right. right. right. apply in_app_iff. left. apply in_map_iff. exists c. auto.
   - unfold table_of in Hm; cbn in Hm. rewrite !in_app_iff in Hm. unfold item_mods in IT.
     destruct Hm as [Hm|[Hm|[Hm|Hm]]].
     + apply in_flat_flat in Hm. destruct Hm as [it [Hit Hm]]. apply (IT it Hit). rewrite !in_app_iff. auto.
@@ -379,8 +373,10 @@ Ltac refute M := exists M, M; split; [vm_compute; reflexivity|]; split; [apply t
 
 Lemma refuted_selfcoll : exists M order, wfM M = true /\ topo M order /\ wf_assoc_columns (gen M order) = false.
 Proof. refute M_selfcoll. Qed.
-Lemma refuted_nobuiltin : exists M order, wfM M = true /\ topo M order /\ wf_imports (gen M order) = false.
-Proof. refute M_nobuiltin. Qed.
+(* regression example for the repaired C06-b: a model without any builtin-typed public field is now well-formed *)
+Lemma fixed_nobuiltin : wfM M_nobuiltin = true /\ inF M_nobuiltin = true /\ wf_imports (gen M_nobuiltin M_nobuiltin) = true
+  /\ schema_wf (gen M_nobuiltin M_nobuiltin) = true /\ model_obs (gen M_nobuiltin M_nobuiltin) = spec_obs M_nobuiltin.
+Proof. repeat split; vm_compute; reflexivity. Qed.
 Lemma refuted_fkalias : exists M order, wfM M = true /\ topo M order /\ wf_attrs_unique (gen M order) = false.
 Proof. refute M_fkalias. Qed.
 Lemma refuted_reserved : exists M order, wfM M = true /\ topo M order /\ wf_attrs_not_reserved (gen M order) = false.
